@@ -52,5 +52,8 @@ CLAIMS = {
                 text="Tracker.tla shows the rotate/leading-ones/trailing-ones/carry algorithm equals the alive-vector meaning for word sizes 3-12 and up to 5 words; all 7! (quick) / 8! (thorough) application orders are run on the real usize and [usize] trackers at offsets around bits 63|64 and 127|128 "
                      "and as chains with distinct priorities through FlatEx/DeepEx; chains of up to 300 operands with structured orders are judged from their text.",
                 note="Trusted: TLC, Tracker.tla's reading of the Rust bit operations at parametric word size (the real 64-bit words are exercised by the replay). The literal 64 in the carry loop is modelled as W."),
+    "C15": dict(category=MC, technique="TLA+ model of the take-or-clone scan checked by TLC on all occurrence patterns + replay with a clone-counting data type, TLC-judged",
+                text="All 5461 (quick) / 21845 (thorough) occurrence patterns of three variables and literals over <= 6/7 operands: FlatImpl.Consume never reads a moved-out slot; the real eval_vec/eval_iter results are identical to eval, contain no Default placeholder, and single-occurrence variables are never cloned; random larger expressions likewise.",
+                note="Trusted: TLC, the Counted wrapper of the recorder (clone counter per passed value)."),
 }
 NOT_YET = {}
